@@ -117,7 +117,8 @@ def worker(prop, tier, base_seed, wid, nworkers, budget_s, max_runs, out_path):
         for k, v in res["faults"].items():
             agg["faults"][k] = agg["faults"].get(k, 0) + v
         for k, v in res["probes"].items():
-            agg["probes"][k] = agg["probes"].get(k, 0) + v
+            if not k.startswith("_"):
+                agg["probes"][k] = agg["probes"].get(k, 0) + v
         for k, v in res.get("extra", {}).items():
             if isinstance(v, (int, float)):
                 agg["extra"][k] = agg["extra"].get(k, 0) + v
